@@ -1015,5 +1015,6 @@ func cmdC13Script(seed uint64, n int, dir string) {
 	for k, v := range hist {
 		st.Histogram[k] = v
 	}
+	c13LiteralOracle(st, newRng(seed^0xC13117), 300+10*n) // c13lit.go: native oracle (strconv.Unquote / UnquoteChar), no toolchain needed
 	st.write(dir + "/C13_script_stats.json")
 }
